@@ -232,6 +232,8 @@ def norm_value(f, v):
 
 TN1 = TextName([ts.tlv(8, 'a b'.encode()), ts.tlv(8, 'c:d'.encode()), ts.tlv(8, 'é'.encode())], ['a b', 'c:d', 'é'])
 TN2 = TextName([ts.tlv(8, b'x'), ts.tlv(8, 'né e'.encode()), ts.tlv(0x20, b'k')], ['x', 'né e', ts.tlv(0x20, b'k')])
+# text whose escaped form (600 characters) and whose value (200 bytes) lie on different sides of the one-byte length limit
+TN3 = TextName([ts.tlv(8, ('é' * 100).encode()), ts.tlv(8, b'z')], [enc.Component.to_str(ts.tlv(8, ('é' * 100).encode())), 'z'])
 
 
 # -- value menus ---------------------------------------------------------------------------------------
@@ -251,7 +253,7 @@ def menu(f, level, tier):
     elif k == 'text':
         full = [None, '', 'a', 'é', '日本', 'é' * 126, 'x' * 253, 'é' * 127]
     elif k == 'name':
-        full = [None, [], [C1], [C1, C2, C3], [CL], [C1] * 126, [C1, CL, C3], TN1, TN2]
+        full = [None, [], [C1], [C1, C2, C3], [CL], [C1] * 126, [C1, CL, C3], TN1, TN2, TN3]
     elif k == 'model':
         subs = [menu(g, 1, tier) for g in f['fields']]
         full = [None, {}] + [dict(zip([g['n'] for g in f['fields']], combo)) for combo in itertools.product(*subs)][:12]
